@@ -195,6 +195,7 @@ class Solver:
             final_time = initial_time + simulation_time + \
                 time_discretization/2
         else:
+            self.__powertrain_is_locked = False
             initial_time = Time(value=0, unit=time_discretization.unit)
             final_time = initial_time + simulation_time + \
                 time_discretization/2
